@@ -95,6 +95,8 @@ fn hook(e: SchedEvent) {
         SchedEvent::NotifiedHead => {
             sh.ctl.lock().unwrap().notified = true;
         }
+        // the harnesses here never flush into a level 0 at the stall threshold
+        SchedEvent::IngestStalled => {}
     }
 }
 
